@@ -397,12 +397,29 @@ def future_flags(code, prefix=""):
     return res
 
 
-def through_loader(source, path):
+def through_loader(source, path, tc=None):
     """the code object the REAL loader produces for this source (parse, transform, compile as the loader does it)"""
     from jaxtyping._import_hook import Typechecker, _JaxtypingLoader
 
-    loader = _JaxtypingLoader("genmod", path, typechecker=TC)
+    loader = _JaxtypingLoader("genmod", path, typechecker=tc or TC)
     return loader.source_to_code(source.encode(), path)
+
+
+_SPY = types.ModuleType("c10spy")
+_SPY.SEEN = []
+exec("def check(fn, *a, **k):\n    SEEN.append(getattr(fn, '__qualname__', '?'))\n    return fn\n", _SPY.__dict__)
+sys.modules["c10spy"] = _SPY
+TC_SPY = None
+
+
+def decorated_by(code, path):
+    """run a module compiled with the spy typechecker: which definitions reached the typechecker, in order"""
+    _SPY.SEEN.clear()
+    try:
+        execute(code, path)
+    except BaseException as e:  # noqa: BLE001
+        return ["RAISED:" + type(e).__name__] + list(_SPY.SEEN)
+    return list(_SPY.SEEN)
 
 
 ANNOTATED_MODULE = '''LOG = []
@@ -482,6 +499,50 @@ def main():
 '''
 
 
+TAB_MODULE = (
+    '"""legal but unusual spacing: a tab / a form feed / a line continuation after the keywords"""\n'
+    "LOG = []\n"
+    "def\tscale(x, k=2):\n    return x * k\n"
+    "class\tPoint:\n    def\t__init__(self, v):\n        self.v = v\n    def\\\n    get(self):\n        return self.v\n"
+    "async\tdef\twaiter():\n    return 0\n"
+    "def\x0couter():\n    def\tinner():\n        return 1\n    return inner()\n"
+    "def\tmain():\n    return (scale(3), Point(4).get(), outer()), LOG\n"
+)
+
+NAMED_DECORATOR_MODULE = '''"""project-local decorators that merely share their NAME with typecheckers"""
+LOG = []
+def typechecked(fn):
+    LOG.append(("typechecked got", type(fn).__name__))
+    return fn
+def beartype(fn=None, **conf):
+    if fn is None:
+        return lambda f: beartype(f)
+    LOG.append(("beartype got", type(fn).__name__))
+    return fn
+class ns:
+    typechecked = staticmethod(typechecked)
+@typechecked
+def one(x):
+    return x
+@beartype
+def two(x):
+    return x
+@beartype(strict=True)
+@typechecked
+def three(x):
+    return x
+@ns.typechecked
+def four(x):
+    return x
+class K:
+    @typechecked
+    def m(self, x):
+        return x
+def main():
+    return (one(1), two(2), three(3), four(4), K().m(5)), LOG
+'''
+
+
 def execute(code, path):
     mod = types.ModuleType("genmod")
     mod.__file__ = path
@@ -489,7 +550,7 @@ def execute(code, path):
     return mod.main(), {k: (getattr(v, "__name__", None), getattr(v, "__doc__", None)) for k, v in mod.__dict__.items() if callable(v) and not k.startswith("__")}, mod.__doc__
 
 
-FIXED_MODULES = [KITCHEN_SINK, ANNOTATED_MODULE, TYPE_CHECKING_MODULE, OWN_IMPORT_MODULE, TYPE_COMMENT_MODULE]
+FIXED_MODULES = [KITCHEN_SINK, ANNOTATED_MODULE, TYPE_CHECKING_MODULE, OWN_IMPORT_MODULE, TYPE_COMMENT_MODULE, TAB_MODULE, NAMED_DECORATOR_MODULE]
 
 
 def run(tier, seed, out, drv, facts):
@@ -549,6 +610,20 @@ def run(tier, seed, out, drv, facts):
             except Exception as e:  # noqa: BLE001
                 out.violation(f"loader:{type(e).__name__}", f"the loader fails on a module that compiles plainly: {e!r}", {"source": source})
                 continue
+            # ... and decorate the same definitions as the transformer applied to the parsed tree does (the loader may hand the
+            # transformer more than the tree)
+            global TC_SPY
+            if TC_SPY is None:
+                TC_SPY = Typechecker("c10spy.check")
+            try:
+                mine = decorated_by(compile(real_transform(parse(source, path), TC_SPY), path, "exec", dont_inherit=True), path)
+                theirs = decorated_by(through_loader(source, path, TC_SPY), path)
+            except Exception as e:  # noqa: BLE001
+                mine, theirs = [], ["ERROR:" + type(e).__name__]
+            n_defs_run = len(mine)
+            if mine != theirs:
+                out.violation("loader:definitions-decorated", f"through the loader the typechecker is applied to {theirs[:8]}…, the transformer applied to the parsed module gives {mine[:8]}… "
+                              f"({n_defs_run} definitions executed)", {"source": source})
             pf = future_flags(compile(source, path, "exec", dont_inherit=True))
             lf = future_flags(lcode)
             bad = {k: (pf[k], lf.get(k)) for k in pf if lf.get(k) != pf[k]}
